@@ -17,7 +17,7 @@ CHECKS = {
             'built with AddressSanitizer and UBSan: the exit status must be 0, 1 or a documented EX_* value, there must be no signal, no '
             'sanitizer report, no uncaught exception and no CPU-limit hit, and a non-zero status must come with empty stdout and (without '
             '-q) a diagnostic.',
-            'Bounded time is decided by a CPU limit (8 s in the search, confirmed with 20 s); inputs are capped at 64 KiB; corpus files '
+            'Bounded time is decided by a CPU limit (8 s in the search, confirmed with 20 s); inputs are capped at 64 KiB; '
             'unknown hangs are minimised under a 3 s limit; the thorough tier adds an in-process libFuzzer target (fuzz/harness.cpp) as a '
             'coverage-guided candidate generator whose artifacts and new corpus entries are all re-judged out of process.', 'DESIGN.md §3 C06'),
     'C01': ('translation_validation', 'Hypothesis-generated C and C++ programs + compilable corpus files x single-option sweep / random / '
